@@ -937,6 +937,16 @@ def deffault_run(case, ctx):
 WEIRD = [None, 0, 1, -1, "s", 1.5, object, [], {}, (), 2 ** 70, len, True, ("a", 1), b"b"]
 
 
+PREFIX_VALUES = ["<missing>", "p_", "", 5, None, b"p_", ("p_",), 1.5]
+
+
+def _fn_arity(n, ret=None):
+    """A plain function with exactly n positional parameters."""
+    ns = {}
+    exec("def f(%s):\n    return RET" % ", ".join("a%d" % i for i in range(n)), {"RET": ret}, ns)
+    return ns["f"]
+
+
 def _ct_attrs():
     from traits.ctraits import cTrait
     from traits.ctrait import CTrait
@@ -962,6 +972,18 @@ def ctapi_gen(tier, shard, nshards):
         cases.append({"what": "rawkind", "kind": k})
     for variant in ("non-hastraits", "none", "missing", "cycle", "ok"):
         cases.append({"what": "base_trait", "variant": variant})
+    # Property getters / setters / validators of every positional arity 0..6 (traits documents 0-3 resp. 0-3 and refuses
+    # the rest when the Property is defined): define, then get / set / delete through an object
+    for g in range(0, 7):
+        for st_ in range(0, 7):
+            for validated in (False, True):
+                cases.append({"what": "proparity", "get": g, "set": st_, "validated": validated})
+    # 'prefix*' / '*' delegates on classes whose __prefix__ is not a string (or is missing)
+    for pv in range(len(PREFIX_VALUES)):
+        for style in ("star", "prestar"):
+            for listenable in (False, True):
+                for hops in (1, 2):
+                    cases.append({"what": "oddprefix", "prefix": pv, "style": style, "listenable": listenable, "hops": hops})
     for c in cases:
         if i % nshards == shard:
             yield c
@@ -1033,6 +1055,87 @@ def ctapi_run(case, ctx):
         if e is not None:
             ctx.fail("stale-error/ctrait-api", "%r left the error indicator set: %r" % (case, e))
         _exercise(ct)
+    elif what == "proparity":
+        def quiet(f):
+            try:
+                f()
+            except RecursionError:
+                raise
+            except SystemError as e:
+                ctx.fail("systemerror/ctrait-api", "%r raised %r" % (case, e))
+            except Exception:
+                ctx.label("refused")
+        try:
+            prop = T.Property(_fn_arity(case["get"], 1), _fn_arity(case["set"]), trait=(Int if case["validated"] else None)) \
+                if case["validated"] else T.Property(_fn_arity(case["get"], 1), _fn_arity(case["set"]))
+            H = type("PA", (HasTraits,), {"p": prop})
+        except SystemError as e:
+            ctx.fail("systemerror/ctrait-api", "%r raised %r" % (case, e))
+        except Exception:
+            ctx.label("refused")
+            return
+        h = H()
+        quiet(lambda: h.p)
+        quiet(lambda: setattr(h, "p", 2))
+        quiet(lambda: setattr(h, "p", "x"))
+        quiet(lambda: delattr(h, "p"))
+        quiet(lambda: h.trait_property_changed("p", 1, 2))
+        quiet(lambda: pickle.loads(pickle.dumps(H.__class_traits__["p"])))
+        quiet(lambda: h.add_trait("q", prop))
+        quiet(lambda: setattr(h, "q", 3))
+        quiet(lambda: h.q)
+        e = stale_error()
+        if e is not None:
+            ctx.fail("stale-error/ctrait-api", "%r left the error indicator set: %r" % (case, e))
+    elif what == "oddprefix":
+        def quiet(f):
+            try:
+                f()
+            except RecursionError:
+                raise
+            except SystemError as e:
+                ctx.fail("systemerror/ctrait-api", "%r raised %r" % (case, e))
+            except Exception:
+                ctx.label("refused")
+        pv = PREFIX_VALUES[case["prefix"]]
+        pat = "*" if case["style"] == "star" else "p_*"
+        try:
+            Dn = type("OD", (HasTraits,), {"foo": Int(3), "p_foo": Int(4)})
+            ns = {"d": Instance(Dn, ()), "foo": DelegatesTo("d", prefix=pat, listenable=case["listenable"])}
+            if pv != "<missing>":
+                ns["__prefix__"] = pv
+            A1 = type("OA", (HasTraits,), ns)
+            top = A1
+            if case["hops"] == 2:
+                top = type("OB", (HasTraits,), {"a": Instance(A1, ()), "foo": DelegatesTo("a", listenable=case["listenable"])})
+        except SystemError as e:
+            ctx.fail("systemerror/ctrait-api", "%r raised %r" % (case, e))
+        except Exception:
+            ctx.label("refused")
+            return
+        with warnings.catch_warnings():
+            warnings.simplefilter("ignore")
+            push_exception_handler(handler=lambda *args: None, reraise_exceptions=False, main=True)
+            try:
+                o = None
+                try:
+                    o = top()
+                except Exception:
+                    ctx.label("refused")
+                if o is not None:
+                    quiet(lambda: o.foo)
+                    quiet(lambda: setattr(o, "foo", 7))
+                    quiet(lambda: setattr(o, "foo", "bad"))
+                    quiet(lambda: delattr(o, "foo"))
+                    quiet(lambda: o.base_trait("foo"))
+                    quiet(lambda: o.trait("foo"))
+                    quiet(lambda: o.on_trait_change(lambda: None, "foo"))
+                    quiet(lambda: o.foo)
+            finally:
+                pop_exception_handler()
+        e = stale_error()
+        if e is not None:
+            ctx.fail("stale-error/ctrait-api", "%r left the error indicator set: %r" % (case, e))
     elif what == "rawkind":
         try:
             ct = CTrait(case["kind"])
